@@ -4,7 +4,7 @@ from engine.auto import Explorer, fmt_trace, cond_shape
 from engine.facts import erase, short_loc
 from engine.lib import A, qe
 from engine.table import Interp, Unknown
-from rules.common import Oracle, ITER, loop_of, iter_env
+from rules.common import Oracle, ITER, loop_of, iter_env, LoopModel, iter_calls
 from rules import protocol
 
 
@@ -14,27 +14,30 @@ def c06a(ctx, tu):
             l = loop_of(fn, "trompeloeil::sequence_matcher::is_satisfied")
             if l is None:
                 raise Unknown("loop over the pending list not found")
-            body = fn.blocks[l["head"]]["succ"][0]
+            lm = LoopModel(fn, l)
             bad = None
             for sat in (True, False):
               for opt in (True, False):
                 # whether an entry is optional / required must not matter: every pending entry counts
-                o = Oracle(calls=dict(ITER, **{"trompeloeil::sequence_matcher::is_satisfied": sat,
-                                               "trompeloeil::sequence_matcher::is_optional": opt}))
-                it = Interp(fn, o)
-                it.env.update(iter_env(fn))
-                res = it.run(start=body, stop_blocks={l["head"]})
-                want = ("stop", l["head"]) if sat else ("return", False)
+                o = Oracle(calls=iter_calls("elem", {"trompeloeil::sequence_matcher::is_satisfied": sat,
+                                                     "trompeloeil::sequence_matcher::is_optional": opt}),
+                           any_member=True).descend_into(tu)
+                res, it = lm.step(o, at="elem")
+                want = ("stop", lm.entry) if sat else ("return", False)
                 if res != want and bad is None:
                     bad = "pending expectation %s (%s): expected %s, code does %s" % (
                         "satisfied" if sat else "not satisfied", "optional" if opt else "required",
                         "look at the next one" if sat else "not completed", res)
-            rets = cfg.events_in_blocks(fn, cfg.reach(fn, l["after"]), lambda e: e["e"] == "return")
-            if not rets or any(e.get("x") != ["bool", True] for _, _, e in rets):
+            o = Oracle(calls=iter_calls("end", {"trompeloeil::sequence_matcher::is_satisfied": False,
+                                                "trompeloeil::sequence_matcher::is_optional": False}),
+                       any_member=True).descend_into(tu)
+            res, it = lm.step(o, at="end")
+            if res != ("return", True):
                 bad = bad or "a sequence whose pending expectations are all satisfied (or that is empty) must be completed"
-            # the loop ranges over the pending list
-            rng = any(e["e"] == "decl" and isinstance(e.get("init"), list) and e["init"][:1] == ["member"]
-                      and erase(e["init"][1]) == "trompeloeil::sequence_type::matchers" for b, e in fn.events())
+            # the walk is over the sequence's pending list
+            FIELD = "trompeloeil::sequence_type::matchers"
+            rng = any(isinstance(t, list) and t[:1] == ["member"] and erase(t[1]) == FIELD
+                      for b, e in fn.events() for k in ("init", "recv", "args") for t in lib.subtrees(e.get(k)))
             if not rng:
                 bad = bad or "is_completed does not range over the sequence's pending list"
             ctx.ob("C06.a", A["seq_is_completed"], bad is None, pattern=fn.pat, unit=tu.name,
